@@ -90,3 +90,10 @@ _p('C03', ['r_table'],
    'index through the index space the oracle names, no narrowing cast on the way).',
    not_decided='that wasm-encoder serialises an Instruction value correctly (trusted)')
 PROPERTIES['C03']['rules'] = ['r_table', 'r_control']
+
+_p('C06', ['r_edges'],
+   'The GC closure is checked against the type definitions: every id-typed position (struct field, enum payload, '
+   'collection element, const-expr operand) of every entity kind tracked by `Used` is enumerated from the resolved '
+   'ADTs, each worklist loop of Used::new is evaluated symbolically, and the position must be pushed in every world '
+   'compatible with the enum variants on its path; roots are compared with the documented list.',
+   not_decided='behavioural equality of the collected module (execution)')
